@@ -606,8 +606,13 @@ def run_emitted(case, V, C, detail):
         C["algorithms_run"] = sorted(set(C["algorithms_run"]) | {"%s:%s" % (case["sub"], r["algorithm"])})
         return
     exc, msg = r["exception"], r["message"].lower()
-    if r.get("nonfinite_state"):
-        # a parameter of the model is NaN / inf when the run dies (a diverged trajectory, an optimiser step out of the support):
+    if r.get("outside_support"):
+        # the run has moved a parameter outside the support the CLI declares for it (the MAP optimiser works on the constrained
+        # parameters directly): numerical trouble during the run, not plumbing
+        C["runs_numerical_failure_not_judged"] = C.get("runs_numerical_failure_not_judged", 0) + 1
+        C["numerical_failures"] = ["%s %s@%s (%s outside its declared support)" % (case["sub"], exc, r["where"], r["outside_support"])]
+    elif r.get("nonfinite_state"):
+        # a parameter of the model is NaN / inf / beyond 1e8 when the run dies (a diverged trajectory or optimiser step):
         # whatever is raised afterwards (typically an index error from a search over NaN times) is numerical trouble during the run
         C["runs_numerical_failure_not_judged"] = C.get("runs_numerical_failure_not_judged", 0) + 1
         C["numerical_failures"] = ["%s %s@%s (non-finite parameters)" % (case["sub"], exc, r["where"])]
